@@ -157,6 +157,14 @@ pub enum Op {
 	Open { from: usize, to: usize },
 	/// The chain confirms the funding transaction (6 blocks) - if the funder has broadcast it by now
 	ConfirmFunding,
+	/// One payment split over several multi-hop paths: (hops as (node, channel index), amount of that part)
+	SendMultiPath { from: usize, paths: Vec<(Vec<(usize, usize)>, u64)>, policy: ClaimPolicy },
+	/// `n` timer ticks at `node`
+	Ticks { node: usize, n: u32 },
+	/// `node`'s monitor writes become asynchronous from now on
+	SetAsync { node: usize },
+	/// the connection between `a` and `b` drops
+	DropLink { a: usize, b: usize },
 	/// `from` opens one channel to each node of `to`, funded by a single (batch) transaction
 	OpenBatch { from: usize, to: Vec<usize> },
 	/// A forged `channel_ready` for the channel between `to` and `from`, announcing point number `variant`,
@@ -346,7 +354,8 @@ impl WorldSys {
 	fn default_actions(&mut self) -> Vec<Action> {
 		let mut v = Vec::new();
 		let n = self.w.nodes.len();
-		if self.ops_first && !self.finished && self.next_op < self.ops.len() {
+		let next_is_ticks = matches!(self.ops.get(self.next_op), Some(Op::Ticks { .. }));
+		if self.ops_first && !next_is_ticks && !self.finished && self.next_op < self.ops.len() {
 			v.push(Action::Op(self.next_op));
 		}
 		// reconnect comes first in the default schedule: a dropped link is re-established at once
@@ -383,7 +392,7 @@ impl WorldSys {
 				v.push(Action::Complete(i, ci, *id));
 			}
 		}
-		if !self.ops_first && !self.finished && self.next_op < self.ops.len() {
+		if (!self.ops_first || next_is_ticks) && !self.finished && self.next_op < self.ops.len() {
 			v.push(Action::Op(self.next_op));
 		}
 		// releases come last in the default order (maximal delay); earlier release is a zero-cost alternative
@@ -462,6 +471,8 @@ impl WorldSys {
 			return 0;
 		}
 		match a {
+			// timer ticks stand for minutes: they are only taken when nothing else is left to do
+			Action::Op(i) if matches!(self.ops.get(*i), Some(Op::Ticks { .. })) => u32::MAX,
 			Action::Op(_) => self.dev.early_op.unwrap_or(u32::MAX),
 			Action::ReleaseEvents(_) | Action::ReleaseLink(..) | Action::ReleaseManager(_) => self.dev.early_release.unwrap_or(u32::MAX),
 			Action::Complete(..) => self.dev.complete_reorder.unwrap_or(u32::MAX),
@@ -590,6 +601,30 @@ impl WorldSys {
 				let r = self.w.nodes[from].cm.create_channel(tid, 1_000_000, 400_000_000, 42, None, None);
 				self.w.obs.push(Obs::Api { node: from, what: "create_channel".into(), ok: r.is_ok(), detail: format!("{:?}", r.map(|_| ())) });
 				self.w.pump();
+			},
+			Op::SendMultiPath { from, paths, policy } => {
+				let ps: Vec<(Vec<(usize, ChannelId)>, u64)> = paths.iter().map(|(h, a)| (h.iter().map(|(n, c)| (*n, self.chans[*c])).collect(), *a)).collect();
+				if ps.iter().all(|(h, _)| { let mut pv = from; h.iter().all(|(n, c)| { let ok = self.w.chan(pv, c).is_some(); pv = *n; ok }) }) {
+					self.w.send_multipath(from, &ps, policy);
+				} else {
+					self.w.obs.push(Obs::Api { node: from, what: "send-skipped".into(), ok: true, detail: "channel closed".into() });
+				}
+			},
+			Op::SetAsync { node } => {
+				self.async_on[node] = true;
+				self.w.nodes[node].persist.set_async_all(true);
+			},
+			Op::DropLink { a, b } => {
+				if self.w.is_connected(a, b) {
+					self.w.disconnect(a, b);
+				}
+			},
+			Op::Ticks { node, n } => {
+				for _ in 0..n {
+					self.w.nodes[node].cm.timer_tick_occurred();
+					self.w.pump();
+				}
+				self.w.obs.push(Obs::Api { node, what: format!("ticks {}", n), ok: true, detail: String::new() });
 			},
 			Op::OpenBatch { from, to } => {
 				self.w.batch_expected = to.len();
